@@ -645,14 +645,11 @@ func runLargeSets(c *ctx) {
 			}
 			model[v] = true
 		}
-		given := slices.Clone(input)
-		ms = container.NewMapSet(given...)
-		if !slices.Equal(given, input) {
-			rc.Fail("input-modified", "NewMapSet", "NewMapSet changed the slice it was given")
-
-			return
-		}
-		ss = container.NewSortedSliceSet(given...)
+		// Each constructor gets a slice of its own (NewSortedSliceSet takes
+		// its argument over; what NewMapSet may do with its one is not part
+		// of the statement).
+		ms = container.NewMapSet(slices.Clone(input)...)
+		ss = container.NewSortedSliceSet(slices.Clone(input)...)
 		rc.Stats.Probe("large-constructor-input")
 		if !check("after construction from " + kernel.Itoa(len(input)) + " values (shape " + kernel.Itoa(shape) + ")") {
 			return
